@@ -16,6 +16,9 @@ def check(ctx, run):
     run.rule("R1", "plugin actions: pre = startChecking + remember failure count; post = stopChecking first, leaks counted for the checking period, failure added iff !ignore and expected != leaks and no new failure and overloads on, with the checking-period report; on EVERY exit the test's leaks are demoted and both flags reset", floor=10)
     run.rule("R2", "period constants: startChecking -> checking (buffer cleared), stopChecking/enable -> enabled, disable -> disabled, demotion rewrites checking -> enabled only; new records are stamped with the current period", floor=9)
     run.rule("R3", "bracketing: the plugin's pre action precedes createTest and its post action follows destroyTest; FinalReport uses the enabled period and is printed by RunAllTests iff the result is 0", floor=4)
+    run.rule("R5", "the leak plugin's actions are reached whatever stands in front of it: the plugin-chain walkers folded over chains of 1..3 plugins x every enabled pattern run each enabled plugin's action once, and a disabled plugin skips only its own (shared with C17.R3)", floor=6)
+    from .shared import plugin_chain_order
+    plugin_chain_order(prog, run, "R5")
 
     pre = prog.fn(PL + "::preTestAction")
     post = prog.fn(PL + "::postTestAction")
